@@ -70,7 +70,7 @@ class Geometry:
                 self.dimensions[i] / self.num_voxels[i] for i in range(self.space_dim)
             ]
 
-        self.voxel_volume = np.prod(self.voxel_size)
+        self.voxel_volume = np.float64(np.prod(self.voxel_size))
         """Volume (area in 2d) of a single voxel."""
         self.cached_voxel_volume = self.voxel_volume.copy()
         """Internal copy of the voxel volume for efficient integration."""
@@ -219,7 +219,11 @@ class WeightedGeometry(Geometry):
         if isinstance(weight, np.ndarray) and len(weight.shape) != self.space_dim:
             raise ValueError
 
-        # Add weight
+        # Add weight. NOTE: A scalar does not promote the data type of an array; use
+        # double precision irrespective of the type of the weight (e.g. float32 or
+        # integer-valued depth maps).
+        if isinstance(weight, np.ndarray):
+            weight = weight.astype(np.float64)
         self.voxel_volume = np.multiply(self.voxel_volume, weight)
         """Effective voxel volume in 3d."""
         self.cached_voxel_volume = self.voxel_volume.copy()
@@ -306,14 +310,12 @@ class ExtrudedPorousGeometry(ExtrudedGeometry):
             voxel_size (list): see Geometry.
 
         """
-        if isinstance(porosity, darsia.Image) and isinstance(depth, darsia.Image):
-            integrated_porosity = np.multiply(porosity.img, depth.img)
-        elif isinstance(depth, darsia.Image):
-            integrated_porosity = np.multiply(porosity, depth.img)
-        elif isinstance(porosity, darsia.Image):
-            integrated_porosity = np.multiply(porosity.img, depth)
-        else:
-            integrated_porosity = np.multiply(porosity, depth)
+        if isinstance(porosity, darsia.Image):
+            porosity = porosity.img
+        if isinstance(depth, darsia.Image):
+            depth = depth.img
+        # NOTE: Multiply in double precision (single precision or integer-valued maps).
+        integrated_porosity = np.multiply(porosity, depth, dtype=np.float64)
         super().__init__(
             integrated_porosity, space_dim, num_voxels, dimensions, voxel_size
         )
